@@ -614,6 +614,41 @@ func g4tGen(r *rand.Rand, tier string, nRandom int, emit func(op string, tags ..
 			}
 		}
 	}
+	// 8. field boundaries: a literal run (k=0), a byte run (k=1) or a pattern match (k=2) of an EXACT length around the
+	//    boundaries of the length codings (1/3/4-byte LZ lengths: 254, 65536+254, with the -7 / min-match offsets; 16-bit
+	//    run fields; 2^16, 2^17), between two compressible stretches so that the stage accepts the block
+	{
+		var mids []int
+		for _, c := range []int{254, 255 + 7, 65536, 65536 + 254, 65536 + 254 + 7, 65535 + 254 + 4, 65535 + 254 + 9, 73469, 73473, 1 << 17} {
+			lo, hi := c-3, c+3
+			if thorough {
+				lo, hi = c-12, c+12
+			}
+			for m := lo; m <= hi; m++ {
+				mids = append(mids, m)
+			}
+		}
+		names := []string{"LZ", "LZX", "LZP", "ROLZ", "ROLZX", "RLT"}
+		if thorough {
+			names = append(names, "ZRLT", "MM", "PACK", "TEXT", "UTF", "SRT", "BWT")
+		}
+		for _, name := range names {
+			for _, mid := range mids {
+				for k := 0; k <= 2; k++ {
+					if !thorough && k == 2 && mid%2 == 0 {
+						continue
+					}
+					for _, tail := range []int{0, 40000} {
+						pre := 98304
+						n := pre + mid + tail
+						seedCtr++
+						emit(fmt.Sprintf("tr %s ent=HUFFMAN bs=%d n=%d jobs=1 hint=unset s=%d d=sandwich:pre=%d,mid=%d,k=%d", name, g4eRound16(n), n, seedCtr, pre, mid, k),
+							"family:field-boundary", fmt.Sprintf("shape:sandwich-k%d", k))
+					}
+				}
+			}
+		}
+	}
 	// 7. random draws
 	if nRandom == 0 {
 		nRandom = 4000
